@@ -206,6 +206,108 @@ func c06Discipline(run *PropRun) {
 	} else {
 		run.Errors = append(run.Errors, "no lockclass for tScreen in the contract files")
 	}
+	// a channel that some function of the package sends on is never closed: after Fini "further Screen calls do not
+	// panic", and a send on a closed channel (PostEvent, the input loop) is a runtime fault. Whole-package scan of the
+	// close / send sites on struct-field channels of the terminfo screen (tScreen and the embedded baseScreen).
+	{
+		type csite struct {
+			fn  *ssa.Function
+			pos token.Pos
+		}
+		fieldChan := func(v ssa.Value) (string, bool) {
+			if u, ok := v.(*ssa.UnOp); ok && u.Op == token.MUL {
+				if fa, ok := u.X.(*ssa.FieldAddr); ok {
+					if pt, ok := fa.X.Type().Underlying().(*types.Pointer); ok {
+						if n, ok := pt.Elem().(*types.Named); ok && (n.Obj().Name() == "tScreen" || n.Obj().Name() == "baseScreen") {
+							return chanName(v), true
+						}
+					}
+				}
+			}
+			return "", false
+		}
+		closes := map[string][]csite{}
+		sends := map[string][]csite{}
+		var all []*ssa.Function
+		var addFn func(fn *ssa.Function)
+		seenFn := map[*ssa.Function]bool{}
+		addFn = func(fn *ssa.Function) {
+			if fn == nil || seenFn[fn] {
+				return
+			}
+			seenFn[fn] = true
+			all = append(all, fn)
+			for _, a := range fn.AnonFuncs {
+				addFn(a)
+			}
+		}
+		for _, mem := range sp.Members {
+			switch m := mem.(type) {
+			case *ssa.Function:
+				addFn(m)
+			case *ssa.Type:
+				for _, t := range []types.Type{m.Type(), types.NewPointer(m.Type())} {
+					mset := e.Prog.MethodSets.MethodSet(t)
+					for i := 0; i < mset.Len(); i++ {
+						if f := e.Prog.MethodValue(mset.At(i)); f != nil && f.Pkg == sp && f.Synthetic == "" {
+							addFn(f)
+						}
+					}
+				}
+			}
+		}
+		for _, fn := range all {
+			for _, b := range fn.Blocks {
+				for _, in := range b.Instrs {
+					switch x := in.(type) {
+					case *ssa.Send:
+						if n, ok := fieldChan(x.Chan); ok {
+							sends[n] = append(sends[n], csite{fn, x.Pos()})
+						}
+					case *ssa.Select:
+						for _, stt := range x.States {
+							if stt.Dir == types.SendOnly {
+								if n, ok := fieldChan(stt.Chan); ok {
+									sends[n] = append(sends[n], csite{fn, x.Pos()})
+								}
+							}
+						}
+					case ssa.CallInstruction:
+						if bi, isB := x.Common().Value.(*ssa.Builtin); isB && bi.Name() == "close" {
+							if n, ok := fieldChan(x.Common().Args[0]); ok {
+								closes[n] = append(closes[n], csite{fn, x.Pos()})
+							}
+						}
+					}
+				}
+			}
+		}
+		var cn []string
+		for n := range closes {
+			cn = append(cn, n)
+		}
+		sort.Strings(cn)
+		nClose := 0
+		for _, n := range cn {
+			for _, c := range closes[n] {
+				nClose++
+				why := ""
+				if len(sends[n]) > 0 {
+					why = fmt.Sprintf("; %s sends on it (%s)", fnShort(sends[n][0].fn), e.posStr(sends[n][0].pos))
+				}
+				g := run.AddObligation(fmt.Sprintf("tScreen.%s/close[%s]/never-sent-on", fnShort(c.fn), n), "discipline", BoolT(len(sends[n]) == 0),
+					fmt.Sprintf("the screen channel %s closed in %s is one nothing ever sends on (a send on a closed channel is a runtime fault: a Screen call after Fini would panic)%s (%s)", n, fnShort(c.fn), why, e.posStr(c.pos)))
+				g.Pos = e.posStr(c.pos)
+			}
+		}
+		sn := 0
+		for _, v := range sends {
+			sn += len(v)
+		}
+		run.AddObligation("tScreen/channel-close-and-send-sites-found", "discipline", BoolT(nClose >= 1 && sn >= 2), "the close site of quit and the send sites of the event queue were found by the package scan")
+		run.Extra["screen_channel_close_sites"] = nClose
+		run.Extra["screen_channel_send_sites"] = sn
+	}
 	// Fini is idempotent (finiOnce) and finish closes quit before finalize waits
 	fini := e.FindFunc(modPath + ".(*tScreen).Fini")
 	finish := e.FindFunc(modPath + ".(*tScreen).finish")
